@@ -7,7 +7,7 @@ import capture
 from astcodec import enc, parse_expr
 
 ID = "C05"
-THEOREMS = ["resolveCalled_frame", "uninlinable_left", "resolveCalled_frame_both"]
+THEOREMS = ["hideRename_avoids", "hideLoop_avoids", "hideLoop_new_not_taken", "freshLocal_fresh", "resolveCalled_frame", "uninlinable_left", "resolveCalled_frame_both"]
 RULE = (
     "generated modules (harness/capture.py) with one-line helpers (def and lambda): identity body, arithmetic, "
     "helper calling helpers, helper containing a nested lambda re-using its parameter name, helper taking a "
@@ -17,12 +17,19 @@ RULE = (
     "helper call; distinct = distinct lambda body"
 )
 EXPLANATION = (
-    "Theorems so far: resolveCalled_frame (nothing to inline => unchanged, under any hiding), uninlinable_left; "
-    "worked instances (bare-parameter body, shadowing nested lambda, helper calling helper) by rfl; the semantic "
-    "theorem is in progress (see DESIGN). Correspondence: _resolve_called_lambdas / parse_as_ast vs compiled Lean "
-    "resolveCalled / parseCallable. Oracle: CPython calling the real helper vs the recorded lambda on generated events."
+    "Theorems: hideRename_avoids / hideLoop_avoids (capture avoidance of the inliner: after _visit_hiding no lambda parameter or "
+    "comprehension variable inside a body being inlined is a name that an argument being substituted mentions - such locals "
+    "are renamed), hideLoop_new_not_taken + freshLocal_fresh (the new name x_i is not a name of any argument, of the other "
+    "locals or of the body: found among the first n+1 candidates by pigeonhole), resolveCalled_frame (nothing to inline => "
+    "unchanged, under any hiding), uninlinable_left; worked instances (bare-parameter body, shadowing nested lambda, helper "
+    "calling helper) by rfl. PARTIAL: no theorem yet that the inlined expression evaluates like the call (it would need the "
+    "substitution lemma for the strict semantics under these freshness facts); the remaining direction of capture (a "
+    "call-site binder named like a free name of an inserted helper body) is an open finding. Correspondence: "
+    "_resolve_called_lambdas / parse_as_ast vs compiled Lean resolveCalled / parseCallable, including the renaming (same new "
+    "names). Oracle: CPython calling the real helper vs the recorded lambda on generated events; dedicated witnesses of the "
+    "repaired capture and of the open one."
 )
-ASSUMPTIONS = ["an argument mentioning a name bound by a lambda inside the helper body is captured (known finding F22)"]
+ASSUMPTIONS = ["a call-site binder named like a name that is free in an inserted helper body captures it (open finding)"]
 
 TEXTS = [
     "(lambda x: x)(y)", "(lambda x: s.Select(lambda x: x+1))(y)", "(lambda x: [x for x in s])(y)",
